@@ -203,6 +203,15 @@ func (r *yieldRewriter) rewriteStmts(
 	isLast := idx == len(stmts)-1
 	following := r.rewriteStmt(stmts[idx], isLast, children)
 	if following == nil {
+		if _, jump := stmts[idx].(*ast.BranchStmt); jump {
+			// the statements after break / continue are dead and are not
+			// rewritten: drop them from the source block as well, so that a
+			// block emitted unchanged (because nothing live in it yields)
+			// carries no half-processed statements or stub calls
+			for i := idx + 1; i < len(stmts); i++ {
+				stmts[i] = &ast.EmptyStmt{Implicit: true}
+			}
+		}
 		return
 	}
 
